@@ -90,6 +90,61 @@ def run_one(s):
             rec["pts"].append(U.q_of({v: [float(x) / KS for x in co[v][i]] for v in vs}, rowS))
             rec["normals"].append([U.quant(x, 256) for x in nn.reshape(m, -1)[i]] if nn.numel() == m * d_ else [])
     sets.append(rec)
+    # the same shape moved to (300, 200, -100) (positions only): normals do not depend on where the shape is; points moved back
+    FARP = [300.0, 200.0, -100.0]
+    rec = {"kind": "far", "n": 12, "prm": {k: v * U.F for k, v in rowS.items()}, "exc": "", "nexc": "", "pts": [], "normals": [], "shape_ok": True}
+    if '"trans"' not in __import__("json").dumps(e):
+        def far():
+            bdF = U.build_far(e, FARP).boundary
+            pF = U.mk_params(names, [rowS]) if names else Points.empty()
+            q = bdF.sample_grid(n=12, params=pF)
+            rp = U.mk_params(names, [rowS] * len(q)) if names else Points.empty()
+            return q, bdF.normal(q, rp)
+        r = watched(far, 8)
+        if r[0] != "ok":
+            rec["exc"] = r[1] if len(r) > 1 else "hang"
+        else:
+            q, nn = r[1]
+            m = len(q)
+            nn = torch.as_tensor(nn).detach().to(torch.float64)
+            d_ = sum(U.SPACES[v] for v in vs)
+            rec["shape_ok"] = list(nn.shape) == [m, d_]
+            co = q.coordinates
+            for i in range(m):
+                k0, cc = 0, {}
+                for v in vs:
+                    cc[v] = [float(x) - FARP[j] for j, x in enumerate(co[v][i].to(torch.float64))]
+                rec["pts"].append(U.q_of(cc, rowS))
+                rec["normals"].append([U.quant(x, 256) for x in nn.reshape(m, -1)[i]] if nn.numel() == m * d_ else [])
+        sets.append(rec)
+    # the same shape 4096 times SMALLER: unit normals also for tiny shapes (normals logged at 1/4096 and scaled to 1/256 units after a
+    # finer length test by the specification: field "norm4096" = squared length at 1/4096)
+    KT = 1.0 / 4096.0
+    rec = {"kind": "tiny", "n": 12, "prm": {k: v * U.F for k, v in rowS.items()}, "exc": "", "nexc": "", "pts": [], "normals": [], "shape_ok": True, "len2_4096": []}
+
+    def tiny():
+        bdS = U.build_scaled(e, KT).boundary
+        pS = Points(torch.tensor([[float(rowS[n_]) * KT for n_ in names]], dtype=torch.float32), U.mk_params(names, [rowS]).space) if names else Points.empty()
+        q = bdS.sample_grid(n=12, params=pS)
+        rp = Points(pS.as_tensor.repeat(len(q), 1), pS.space) if names else Points.empty()
+        return q, bdS.normal(q, rp)
+    # (not for polyhedra: the nearest-face search of the trimesh package works with absolute tolerances and picks other faces at this size)
+    r = watched(tiny, 8) if '"mesh"' not in __import__("json").dumps(e) else ("exc", "skipped")
+    if r[0] != "ok":
+        rec["exc"] = r[1] if len(r) > 1 else "hang"
+    else:
+        q, nn = r[1]
+        m = len(q)
+        nn = torch.as_tensor(nn).detach().to(torch.float64)
+        d_ = sum(U.SPACES[v] for v in vs)
+        rec["shape_ok"] = list(nn.shape) == [m, d_]
+        co = q.coordinates
+        for i in range(m):
+            rec["pts"].append(U.q_of({v: [float(x) / KT for x in co[v][i]] for v in vs}, rowS))
+            rowv = nn.reshape(m, -1)[i] if nn.numel() == m * d_ else []
+            rec["normals"].append([U.quant(x, 256) for x in rowv])
+            rec["len2_4096"].append(sum(U.quant(x, 4096) ** 2 for x in rowv) if len(rowv) else 0)
+    sets.append(rec)
     # one normal() call on a batch whose points belong to DIFFERENT parameter rows (every point with its own row)
     if names:
         ra = {n_: 0 for n_ in names}
